@@ -146,6 +146,17 @@ CHECKS = {
               'All three files of every generated run compared field by '
               'field.',
               'DESIGN.md section 2 C15', _BASE_NOTE),
+    'C16': _e('exploration',
+              'reference-model monitor around the real validate_h5ad: '
+              'generated files (values straddling integer-type boundaries, '
+              'three encodings, forced small HDF5 chunks, X or a layer, obs '
+              'annotations, Ensembl / symbol / unknown gene names) with the '
+              'input\'s sha256 taken before and after, output read back with '
+              'anndata and compared entry by entry; the four rejection '
+              'classes probed',
+              'Every entry of every rewritten file; boundary values aimed '
+              'at by the generator.',
+              'DESIGN.md section 2 C16', _BASE_NOTE),
     'C17': _e('exploration',
               'differential monitor over paired real runs with a common '
               'seed: configuration-level drop / flatten vs a reference '
